@@ -215,3 +215,39 @@ def execute(G, cfg, steps, oracles, on_request=None, on_failed_send=None):
     finally:
         link.close()
     return info
+
+
+def discovered_stage(rep, G, pid, n, need_auth, need_priv, prefixes):
+    """Second stage of C09 / C11 / C14: sessions of the real sync / async clients that learn their engine id by discovery
+    (also with the first probe lost and refresh() retried) - the path on which the keys are installed by set_keys() after
+    the session exists.  Generator and wire oracle are C13's; only failures that are this property's statement (their
+    signature starts with one of `prefixes`: the MAC / the encryption of an emitted request) are reported here, everything
+    else about such sessions is left to C13."""
+    from checks import c13
+
+    def body(c):
+        try:
+            nmsg, _ = c13.execute(G, c)
+        except core.Failure as f:
+            if "TimeoutError" in f.message and f.signature in ("request-failed", "message-count", "refresh-failed", "lost-probe-outcome"):
+                nmsg, _ = c13.execute(G, c, slow=True)
+            elif f.signature.startswith(tuple(prefixes)):
+                raise core.Failure("discovered-session:" + f.signature, f.message)
+            else:
+                rep.count("discovered_session_failures_left_to_C13")
+                return
+        rep.case("disc:" + repr(c13.describe(c)), len(c["reqs"]) >= 1,
+                 classes=["mode:discovered-session", "driver:" + c["driver"]] + (["lost_first_probe"] if c.get("lost_probe") else []))
+        rep.count("discovered_session_messages_checked", nmsg)
+
+    def describe2(c):
+        d = c13.describe(c)
+        d["_stage"] = "discovered"
+        return d
+
+    return core.run_hypothesis(rep, gen.case_strategy(lambda u: c13.build_case(u, need_auth, need_priv, True), 1024), body, n, describe=describe2)
+
+
+def replay_discovered(rep, case):
+    from checks import c13
+    return c13.replay(rep, case)
